@@ -171,7 +171,9 @@ func (t *SymbolTable) Verify() error {
 func (t *SymbolTable) ensureSingleDefs() error {
 	var errs error
 
-	for a, e := range t.terminals.table.All() {
+	for _, a := range t.orderedTerminals() {
+		e, _ := t.terminals.table.Get(a)
+
 		if count := len(e.definitions); count == 0 {
 			errs = errors.Append(errs, fmt.Errorf("no definition for terminal %s", a))
 		} else if count > 1 {
@@ -193,8 +195,8 @@ func (t *SymbolTable) ensureDistinctDefs() error {
 	var errs error
 
 	reverse := make(map[string][]*TerminalDef)
-	for _, e := range t.terminals.table.All() {
-		if len(e.definitions) == 1 {
+	for _, a := range t.orderedTerminals() {
+		if e, _ := t.terminals.table.Get(a); len(e.definitions) == 1 {
 			def := e.definitions[0]
 			reverse[def.Value] = append(reverse[def.Value], def)
 		}
@@ -221,6 +223,19 @@ func (t *SymbolTable) ensureDistinctDefs() error {
 	}
 
 	return errs
+}
+
+// orderedTerminals returns the terminals of the table in order,
+// so that the errors do not depend on the iteration order of the hash table (which differs from run to run).
+func (t *SymbolTable) orderedTerminals() []grammar.Terminal {
+	all := make([]grammar.Terminal, 0, t.terminals.table.Size())
+	for a := range t.terminals.table.All() {
+		all = append(all, a)
+	}
+
+	sort.Quick(all, grammar.CmpTerminal)
+
+	return all
 }
 
 // ensureStartSymbol ensures a production rule exists with the start symbol as the head non-terminal.
@@ -283,12 +298,7 @@ func (t *SymbolTable) Terminals() []grammar.Terminal {
 	t.Lock()
 	defer t.Unlock()
 
-	var all []grammar.Terminal
-	for a := range t.terminals.table.All() {
-		all = append(all, a)
-	}
-
-	return all
+	return t.orderedTerminals()
 }
 
 // NonTerminals returns the set of non-terminal symbols added to the symbol table.
@@ -300,6 +310,9 @@ func (t *SymbolTable) NonTerminals() []grammar.NonTerminal {
 	for A := range t.nonTerminals.table.All() {
 		all = append(all, A)
 	}
+
+	// In order, so that nothing derived from the list depends on the iteration order of the hash table.
+	sort.Quick(all, grammar.CmpNonTerminal)
 
 	return all
 }
@@ -313,6 +326,9 @@ func (t *SymbolTable) Productions() []*grammar.Production {
 	for p := range t.productions.table.All() {
 		all = append(all, p)
 	}
+
+	// In order, so that nothing derived from the list depends on the iteration order of the hash table.
+	sort.Quick(all, grammar.CmpProduction)
 
 	return all
 }
